@@ -16,7 +16,7 @@ MANIFEST_INFO = {
     "engine": "E",
     "design_ref": "DESIGN.md section 5, C06",
     "technique": "bounded-exhaustive breadth-first enumeration of well-typed matcher expression trees (76 leaf matchers over 10 typed domains, 25 combinators) applied to every value of the matching domain and compared with a denotational reference evaluator; MatchesSetwise additionally under every iteration order of its matcher set (hash-controlled wrappers) and every permutation of the values against a brute-force assignment search",
-    "level_text": "Every expression tree up to depth 2 (quick, ~155k trees) / depth 3 with a per-type cap per level (thorough) is built afresh and matched against every value of its domain: match() is None must equal the reference predicate, non-Exception errors of a Raises matchee must propagate unless matched, repeating the match (same and fresh matcher) must give the same verdict, and structural snapshots of matcher and matchee before and after must be equal. All MatchesSetwise instances over <= 3 matchers from {LessThan, Equals, GreaterThan, Always, Never} x all value lists of length <= 3 over {0,1,2} x all iteration orders are compared with the existence of a one-to-one assignment. Leaves include KeysEqual with repeated and with partially ordered (frozenset) keys, SameMembers given an iterator, and one regex pattern under two flag sets.",
+    "level_text": "Every expression tree up to depth 2 (quick, ~155k trees) / depth 3 with a per-type cap per level (thorough) is built afresh and matched against every value of its domain: match() is None must equal the reference predicate, non-Exception errors of a Raises matchee must propagate unless matched, repeating the match (same and fresh matcher) must give the same verdict, and structural snapshots of matcher and matchee before and after must be equal. All MatchesSetwise instances over <= 3 matchers from {LessThan, Equals, GreaterThan, Always, Never} x all value lists of length <= 3 over {0,1,2} x all iteration orders are compared with the existence of a one-to-one assignment. Leaves include KeysEqual over a mapping that is not a dict, HasPermissions against a sticky-bit file, AllMatch over equal-but-different elements, a one-shot preprocessor, KeysEqual with repeated and with partially ordered (frozenset) keys, SameMembers given an iterator, and one regex pattern under two flag sets.",
     "level_note": "The reference evaluator (vt/matchexpr.py) is written from the documentation, independently of the implementation; values outside a matcher's documented domain (e.g. a raising callable for Warnings, a directory for FileContains) are not generated; binary combinators at depth >= 2 combine a newest-level operand with a leaf operand.",
 }
 
